@@ -121,9 +121,9 @@ int snoopy_util_parser_strByteLength (char const * const numberAsText, const int
     char const *numberAsTextPtr       = numberAsText;
     int  numbersBufLength             = 20; // 20 characters are needed to store max long long int in decimal representation + \0.
     char numbersBuf[numbersBufLength];
-    int  numberInt;
-    int  factor = 1;
-    int  result;
+    long long numberInt;
+    long long factor = 1;
+    long long result;
 
     // Extract numbers
     while ((*numberAsTextPtr != '\0') && isdigit(*numberAsTextPtr) && (numberAsTextPtr-numberAsText < numbersBufLength-2)) {
@@ -133,7 +133,7 @@ int snoopy_util_parser_strByteLength (char const * const numberAsText, const int
     numbersBuf[numberAsTextPtr - numberAsText] = '\0';
 
     // Convert to int
-    numberInt = atoi(numbersBuf);
+    numberInt = strtoll(numbersBuf, NULL, 10);   // At most 18 digits are stored, this always fits
     if (numberInt == 0) {
         return valDefault;
     }
@@ -144,11 +144,15 @@ int snoopy_util_parser_strByteLength (char const * const numberAsText, const int
     } else if ((*numberAsTextPtr == 'm') || (*numberAsTextPtr == 'M')) {
         factor = 1024*1024;
     }
+    // Avoid overflow when multiplying: anything above valMax ends up as valMax anyway
+    if (numberInt > valMax) {
+        numberInt = valMax;
+    }
     result = numberInt * factor;
 
     // Apply limits
     if (result < valMin) result = valMin;
     if (result > valMax) result = valMax;
 
-    return result;
+    return (int) result;
 }
